@@ -7,15 +7,19 @@ Open Scope N_scope.
 Section HistoryFacts.
 Variables C Pf D DOCS V M : Type.
 Variable parse_core : N -> C.
+Variable parse_fails : N -> bool.
+Variable parse_err : N -> V.
+Variable parse_msg : N -> M.
 Variable env_toks : N -> list etok.
 Variable dec_sem : fmt -> bool -> D -> DOCS.
 Variable dec_eof : DOCS.
+Variable dec_fails : fmt -> D -> bool.
 Variable sem : C -> Pf -> DOCS -> V.
 Variable msg : C -> Pf -> DOCS -> list str -> str -> M.
 Variable default_prefs : Pf.
 
-Notation stepM := (step parse_core env_toks dec_sem dec_eof sem msg).
-Notation runM := (run parse_core env_toks dec_sem dec_eof sem msg).
+Notation stepM := (step parse_core parse_fails parse_err parse_msg env_toks dec_sem dec_eof dec_fails sem msg).
+Notation runM := (run parse_core parse_fails parse_err parse_msg env_toks dec_sem dec_eof dec_fails sem msg).
 Notation G_ := (G C Pf).
 
 Definition resets (fixinit : bool) (f : fmt) : Prop :=
@@ -36,7 +40,7 @@ Qed.
 Lemma first_file_read_only_by_yaml_together fixinit f together d1 d2 text :
   d_finished d1 = d_finished d2 ->
   (f = FYaml -> together = false) ->
-  snd (decode_run dec_sem dec_eof fixinit f together d1 text) = snd (decode_run dec_sem dec_eof fixinit f together d2 text).
+  snd (decode_run dec_sem dec_eof dec_fails fixinit f together d1 text) = snd (decode_run dec_sem dec_eof dec_fails fixinit f together d2 text).
 Proof.
   intros Hfin Hy. unfold decode_run.
   assert (Hi : d_finished (init fixinit f d1) = d_finished (init fixinit f d2))
@@ -49,7 +53,7 @@ Qed.
 Lemma decode_value fixinit f together d text :
   resets fixinit f \/ d_finished d = false ->
   (f = FYaml -> together = true -> d_first_file d = true) ->
-  snd (decode_run dec_sem dec_eof fixinit f together d text) = dec_sem f true text.
+  snd (decode_run dec_sem dec_eof dec_fails fixinit f together d text) = dec_sem f true text.
 Proof.
   intros Hr Hy. unfold decode_run.
   assert (Hfin : d_finished (init fixinit f d) = false).
@@ -61,14 +65,14 @@ Proof.
 Qed.
 
 Lemma decode_new fixinit f together text :
-  snd (decode_run dec_sem dec_eof fixinit f together d_new text) = dec_sem f true text.
+  snd (decode_run dec_sem dec_eof dec_fails fixinit f together d_new text) = dec_sem f true text.
 Proof.
   apply decode_value; [right; reflexivity|]. intros _ _. reflexivity.
 Qed.
 
 (* ---- the kept trees ---- *)
 Definition Inv (g : G_) : Prop :=
-  forall e t, find_tree e (g_trees g) = Some t -> t_core t = parse_core e.
+  forall e t, find_tree e (g_trees g) = Some t -> t_core t = parse_core e /\ parse_fails e = false.
 
 Lemma find_store_same e (t : tree C) (l : list (N * tree C)) : find_tree e (store_tree e t l) = Some t.
 Proof.
@@ -96,49 +100,50 @@ Lemma parse_trees (g : G_) e : g_trees (fst (parse parse_core env_toks g e)) = g
 Proof. unfold parse. destruct (lex (g_type g) (env_toks e)). cbn. repeat split. Qed.
 
 (* the tree a step evaluates, and the state it leaves *)
-Lemma step_shape fixinit (g : G_) x : Inv g ->
-  exists ty types docsd,
-    fst (snd (stepM fixinit g x)) =
-      sem (parse_core (q_expr x)) (match q_prefs x with Some p => p | None => g_prefs g end)
-          (snd (decode_run dec_sem dec_eof fixinit (q_fmt x) (q_together x)
+Lemma eval_with_shape fixinit (g g1 : G_) pf x t keep :
+  Inv g1 -> g_dec g1 = g_dec g -> t_core t = parse_core (q_expr x) -> parse_fails (q_expr x) = false ->
+  fst (snd (eval_with dec_sem dec_eof dec_fails sem msg fixinit g1 pf x t keep)) =
+      sem (parse_core (q_expr x)) pf
+          (snd (decode_run dec_sem dec_eof dec_fails fixinit (q_fmt x) (q_together x)
                   (if q_reuse_dec x then g_dec g (q_fmt x) (q_together x) else d_new) (q_text x)))
-    /\ snd (snd (stepM fixinit g x)) =
-      msg (parse_core (q_expr x)) (match q_prefs x with Some p => p | None => g_prefs g end) docsd types ty
-    /\ Inv (fst (stepM fixinit g x)).
+  /\ Inv (fst (eval_with dec_sem dec_eof dec_fails sem msg fixinit g1 pf x t keep)).
+Proof.
+  intros HI Hd Hc Hpf. unfold eval_with. rewrite Hd.
+  destruct (decode_run dec_sem dec_eof dec_fails fixinit (q_fmt x) (q_together x)
+              (if q_reuse_dec x then g_dec g (q_fmt x) (q_together x) else d_new) (q_text x)) as [d' docs].
+  cbn [fst snd t_core]. rewrite Hc. split; [reflexivity|].
+  intros e t1 H1. cbn [g_trees] in H1. destruct keep; [|apply HI; exact H1].
+  destruct (N.eq_dec e (q_expr x)) as [->|Hne].
+  - rewrite find_store_same in H1. injection H1 as <-. cbn [t_core]. split; [first [exact Hc | reflexivity]|exact Hpf].
+  - rewrite find_store_other in H1 by exact Hne. apply HI. exact H1.
+Qed.
+
+Lemma step_shape fixinit (g : G_) x : Inv g ->
+  fst (snd (stepM fixinit g x)) =
+    (if parse_fails (q_expr x) then parse_err (q_expr x) else
+      sem (parse_core (q_expr x)) (match q_prefs x with Some p => p | None => g_prefs g end)
+          (snd (decode_run dec_sem dec_eof dec_fails fixinit (q_fmt x) (q_together x)
+                  (if q_reuse_dec x then g_dec g (q_fmt x) (q_together x) else d_new) (q_text x))))
+  /\ Inv (fst (stepM fixinit g x)).
 Proof.
   intro HI. unfold step.
   destruct (if q_reuse_tree x then find_tree (q_expr x) (g_trees g) else None) as [t|] eqn:Ef.
-  - (* kept tree *)
-    assert (Hc : t_core t = parse_core (q_expr x)).
+  - assert (Hc : t_core t = parse_core (q_expr x) /\ parse_fails (q_expr x) = false).
     { destruct (q_reuse_tree x); [apply HI; exact Ef|discriminate]. }
-    destruct (decode_run dec_sem dec_eof fixinit (q_fmt x) (q_together x)
-                (if q_reuse_dec x then g_dec g (q_fmt x) (q_together x) else d_new) (q_text x)) as [d' docs] eqn:Ed.
-    exists (g_type g), (t_types t), docs. cbn [fst snd t_core t_types]. rewrite Hc. repeat split.
-    intros e t1 H1. cbn [g_trees] in H1.
-    destruct (N.eq_dec e (q_expr x)) as [->|Hne].
-    + rewrite find_store_same in H1. injection H1 as <-. cbn [t_core]. first [exact Hc | reflexivity].
-    + rewrite find_store_other in H1 by exact Hne. apply HI. exact H1.
+    destruct Hc as [Hc Hpf]. rewrite Hpf.
+    apply (eval_with_shape fixinit g g _ x t true HI eq_refl Hc Hpf).
   - destruct (parse_trees g (q_expr x)) as (P1 & P2 & P3).
     destruct (parse parse_core env_toks g (q_expr x)) as [g' t] eqn:Ep. cbn [fst snd] in P1, P2, P3.
-    rewrite P2.
-    destruct (decode_run dec_sem dec_eof fixinit (q_fmt x) (q_together x)
-                (if q_reuse_dec x then g_dec g (q_fmt x) (q_together x) else d_new) (q_text x)) as [d' docs] eqn:Ed.
-    exists (g_type g'), (t_types t), docs. cbn [fst snd t_core t_types]. rewrite P3.
-    assert (Hpf : g_prefs g' = g_prefs g).
-    { unfold parse in Ep. destruct (lex (g_type g) (env_toks (q_expr x))). injection Ep as <- _. reflexivity. }
-    repeat split.
-    intros e t1 H1. cbn [g_trees] in H1. rewrite P1 in H1.
-    destruct (q_reuse_tree x).
-    + destruct (N.eq_dec e (q_expr x)) as [->|Hne].
-      * rewrite find_store_same in H1. injection H1 as <-. cbn [t_core]. first [exact P3 | reflexivity].
-      * rewrite find_store_other in H1 by exact Hne. apply HI. exact H1.
-    + apply HI. exact H1.
+    destruct (parse_fails (q_expr x)) eqn:Hpf.
+    + cbn [fst snd]. split; [reflexivity|]. intros e t1 H1. cbn [g_trees] in H1. apply HI. exact H1.
+    + assert (HI' : Inv g') by (intros e t1 H1; rewrite P1 in H1; apply HI; exact H1).
+      apply (eval_with_shape fixinit g g' _ x t (q_reuse_tree x) HI' P2 P3 Hpf).
 Qed.
 
 Lemma run_inv fixinit : forall h (g : G_), Inv g -> Inv (fst (runM fixinit g h)).
 Proof.
   induction h as [|x h IH]; intros g HI; cbn [run]; [exact HI|].
-  destruct (step_shape fixinit g x HI) as (_ & _ & _ & _ & _ & HI1).
+  destruct (step_shape fixinit g x HI) as (_ & HI1).
   destruct (stepM fixinit g x) as [g1 o]. cbn [fst] in HI1.
   specialize (IH g1 HI1). destruct (runM fixinit g1 h) as [g2 os]. exact IH.
 Qed.
@@ -149,11 +154,12 @@ Definition ok_req (fixinit : bool) (x : request Pf D) : Prop :=
   (q_reuse_dec x = false \/ (resets fixinit (q_fmt x) /\ (q_fmt x = FYaml -> q_together x = false))).
 
 Lemma step_value fixinit (g : G_) x : Inv g -> ok_req fixinit x ->
-  fst (snd (stepM fixinit g x)) = spec_value parse_core dec_sem sem default_prefs x.
+  fst (snd (stepM fixinit g x)) = spec_value parse_core parse_fails parse_err dec_sem sem default_prefs x.
 Proof.
   intros HI [Hp Hd].
-  destruct (step_shape fixinit g x HI) as (ty & types & docsd & Hv & _ & _). rewrite Hv.
-  unfold spec_value. destruct (q_prefs x) as [p|]; [|congruence]. f_equal.
+  destruct (step_shape fixinit g x HI) as (Hv & _). rewrite Hv.
+  unfold spec_value. destruct (parse_fails (q_expr x)); [reflexivity|].
+  destruct (q_prefs x) as [p|]; [|congruence]. f_equal.
   destruct Hd as [Hd|[Hr Hy]].
   - rewrite Hd. apply decode_new.
   - destruct (q_reuse_dec x); [|apply decode_new].
@@ -161,8 +167,8 @@ Proof.
 Qed.
 
 Lemma history_independent fixinit h1 h2 x : ok_req fixinit x ->
-  fst (last_out parse_core env_toks dec_sem dec_eof sem msg default_prefs fixinit h1 x)
-  = fst (last_out parse_core env_toks dec_sem dec_eof sem msg default_prefs fixinit h2 x).
+  fst (last_out parse_core parse_fails parse_err parse_msg env_toks dec_sem dec_eof dec_fails sem msg default_prefs fixinit h1 x)
+  = fst (last_out parse_core parse_fails parse_err parse_msg env_toks dec_sem dec_eof dec_fails sem msg default_prefs fixinit h2 x).
 Proof.
   intro Hok. unfold last_out.
   rewrite (step_value fixinit _ x (run_inv fixinit h1 _ inv_G0) Hok).
@@ -170,12 +176,12 @@ Proof.
 Qed.
 
 Lemma fresh_is_spec fixinit x : q_reuse_dec x = false \/ True ->
-  fst (last_out parse_core env_toks dec_sem dec_eof sem msg default_prefs fixinit [] x)
-  = spec_value parse_core dec_sem sem default_prefs x.
+  fst (last_out parse_core parse_fails parse_err parse_msg env_toks dec_sem dec_eof dec_fails sem msg default_prefs fixinit [] x)
+  = spec_value parse_core parse_fails parse_err dec_sem sem default_prefs x.
 Proof.
   intros _. unfold last_out. cbn [run fst].
-  destruct (step_shape fixinit (G0 default_prefs) x inv_G0) as (ty & types & docsd & Hv & _ & _). rewrite Hv.
-  unfold spec_value. cbn [g_prefs G0 g_dec]. f_equal.
+  destruct (step_shape fixinit (G0 default_prefs) x inv_G0) as (Hv & _). rewrite Hv.
+  unfold spec_value. destruct (parse_fails (q_expr x)); [reflexivity|]. cbn [g_prefs G0 g_dec]. f_equal.
   destruct (q_reuse_dec x); apply decode_new.
 Qed.
 
@@ -187,8 +193,8 @@ Lemma reuse_tree fixinit (g : G_) x : Inv g ->
   fst (snd (stepM fixinit g (with_reuse true x))) = fst (snd (stepM fixinit g (with_reuse false x))).
 Proof.
   intro HI.
-  destruct (step_shape fixinit g (with_reuse true x) HI) as (? & ? & ? & Hv1 & _ & _).
-  destruct (step_shape fixinit g (with_reuse false x) HI) as (? & ? & ? & Hv2 & _ & _).
+  destruct (step_shape fixinit g (with_reuse true x) HI) as (Hv1 & _).
+  destruct (step_shape fixinit g (with_reuse false x) HI) as (Hv2 & _).
   rewrite Hv1, Hv2. reflexivity.
 Qed.
 
@@ -202,8 +208,8 @@ Lemma unread_fields fixinit (g1 g2 : G_) x : Inv g1 -> Inv g2 -> same_but_unread
   fst (snd (stepM fixinit g1 x)) = fst (snd (stepM fixinit g2 x)).
 Proof.
   intros H1 H2 (Hd & Hp & _).
-  destruct (step_shape fixinit g1 x H1) as (? & ? & ? & Hv1 & _ & _).
-  destruct (step_shape fixinit g2 x H2) as (? & ? & ? & Hv2 & _ & _).
+  destruct (step_shape fixinit g1 x H1) as (Hv1 & _).
+  destruct (step_shape fixinit g2 x H2) as (Hv2 & _).
   rewrite Hv1, Hv2, Hd, Hp. reflexivity.
 Qed.
 
